@@ -40,7 +40,7 @@ def cbmc_version():
 class Job:
     def __init__(self, name, engine, harness, entry, props, enforce=None, replace=(), defs=(),
                  loop_contracts=False, cbmc_args=(), timeout=600, mem_gb=6, tier="quick",
-                 unwindset=None, note="", expect_fail=(), nondet_static=False, gi_args=()):
+                 unwindset=None, note="", expect_fail=(), nondet_static=False, gi_args=(), part=None):
         self.name = name
         self.engine = engine
         self.harness = harness          # path relative to VERIF
@@ -58,6 +58,7 @@ class Job:
         self.note = note
         self.expect_fail = list(expect_fail)   # tags of must-fail (vacuity) obligations
         self.gi_args = list(gi_args)
+        self.part = part                # (i, n): this job checks the i-th of n shares of the obligations
 
     def workdir(self):
         d = os.path.join(WORK, re.sub(r"[^A-Za-z0-9_.-]", "_", self.name))
@@ -131,7 +132,7 @@ def load_tags():
             for i, line in enumerate(f, 1):
                 if re.match(r"\s*(VC_[A-Z_]+|__CPROVER_assert|VC_ASSERT|__CPROVER_ensures|__CPROVER_requires)\s*\(", line):
                     start = i
-                m = re.search(r"/\*@\s*([A-Za-z0-9_.:\-\[\]]+)\s*\*/", line)
+                m = re.search(r"/\*@\s*([A-Za-z0-9_.:/\-\[\]]+)\s*\*/", line)
                 if m:
                     s = start if start is not None else i
                     for k in range(s, i + 1):
@@ -228,6 +229,22 @@ def run_job(job, use_cache=True):
                     "wall_s": round(time.time() - t0, 2), "obligations": [], "n": 0, "n_ok": 0})
         return res
     cb = ["cbmc", binary, "--json-ui", "--object-bits", "10"] + job.cbmc_args
+    if job.part:
+        try:
+            vac, names = list_properties(binary, job)
+        except Exception as e:
+            res.update({"status": "undecided", "reason": "show-properties failed: %r" % (e,), "log": log,
+                        "wall_s": round(time.time() - t0, 2), "obligations": [], "n": 0, "n_ok": 0})
+            return res
+        i, n = job.part
+        mine = names[i::n] + (vac if i == 0 else [])    # vacuity controls go to share 0
+        res["part"] = {"index": i, "of": n, "properties_total": len(names), "properties_in_part": len(mine)}
+        if not mine:
+            res.update({"status": "undecided", "reason": "empty share of obligations", "log": log,
+                        "wall_s": round(time.time() - t0, 2), "obligations": [], "n": 0, "n_ok": 0})
+            return res
+        for nm in mine:
+            cb += ["--property", nm]
     h = sha_file(binary)
     h.update(("\0".join(cb[2:]) + cbmc_version()).encode())
     key = h.hexdigest()
@@ -299,6 +316,22 @@ def run_job(job, use_cache=True):
     finally:
         fcntl.flock(lock, fcntl.LOCK_UN)
         lock.close()
+
+
+def list_properties(binary, job):
+    """Names of all obligations of a goto binary, in CBMC's order (vacuity controls first in the list)."""
+    cmd = ["cbmc", binary, "--show-properties", "--json-ui", "--object-bits", "10"] + job.cbmc_args
+    rc, out, err, secs, to = run_cmd(cmd, 600, 8)
+    names = []
+    vac = []
+    for el in json.loads(out):
+        if isinstance(el, dict) and "properties" in el:
+            for p in el["properties"]:
+                if (p.get("description") or "").startswith("vacuity control"):
+                    vac.append(p["name"])
+                else:
+                    names.append(p["name"])
+    return vac, names
 
 
 def add_traces(job, binary, cb, failed, res):
